@@ -52,7 +52,7 @@ IndexOf(L, a) == IF \E i \in 1..Len(L) : L[i] = a THEN CHOOSE i \in 1..Len(L) : 
 B0 == [list |-> <<>>, idx |-> 0, addr |-> <<>>, raw |-> <<>>, eff |-> <<>>, fail |-> <<>>, shut |-> {},
        act |-> [a \in Addrs |-> 0], state |-> "CONNECTING", pick |-> 0, firstPass |-> FALSE, numTF |-> 0,
        timer |-> FALSE, health |-> FALSE, hreg |-> {}, creq |-> {}, out |-> <<>>, sticky |-> FALSE,
-       plog |-> <<>>, ovf |-> FALSE, quirked |-> FALSE]
+       plog |-> <<>>, ovf |-> FALSE, quirked |-> FALSE, stale |-> FALSE]
 Active(s) == {s.act[a] : a \in Addrs} \ {0}
 IsActive(s, sc) == s.act[s.addr[sc]] = sc
 Emit(s, o) == [s EXCEPT !.out = Append(@, o)]
@@ -62,7 +62,9 @@ EmitAll(s, kind, S) == [s EXCEPT !.out = @ \o [i \in 1..Cardinality(S) |-> <<kin
 \* forceUpdateConcludedStateLocked / updateBalancerState
 Force(s, st, pk) == [s EXCEPT !.state = st, !.pick = pk, !.out = Append(@, <<"update", st, pk>>)]
 UpdState(s, st, pk) == IF st = s.state /\ s.state # "TF" THEN s ELSE Force(s, st, pk)
-CancelTimer(s) == [s EXCEPT !.timer = FALSE]
+\* cancelConnectionTimer: a cancelled, not yet run callback may still run later (it was already started and is
+\* waiting for the mutex): "stale" records that such a callback exists
+CancelTimer(s) == IF s.timer THEN [s EXCEPT !.timer = FALSE, !.stale = TRUE] ELSE s
 SchedNext(s) == [s EXCEPT !.timer = (s.idx + 1 < Len(s.list))]
 ShutdownSet(s, S) == EmitAll([s EXCEPT !.shut = @ \cup S], "shutdown", S)
 ConnectAll(s, S) == EmitAll([s EXCEPT !.creq = @ \cup S], "connect", S)
@@ -130,6 +132,9 @@ DoTimer(s0) == LET s == [s0 EXCEPT !.timer = FALSE] IN
   IF s.idx < Len(s.list)
     THEN LET s1 == [s EXCEPT !.idx = @ + 1] IN IF s1.idx < Len(s1.list) THEN ReqConn(s1) ELSE s1
     ELSE s
+\* a timer callback that runs after its timer was cancelled (it lost the race for the mutex against the event that
+\* cancelled it) must do nothing
+DoStale(s) == IF Mutant = 3 THEN DoTimer([s EXCEPT !.stale = FALSE]) ELSE [s EXCEPT !.stale = FALSE]
 \* StateListener of sub-connection sc delivers the state n
 DoScState(s0, sc, n) ==
   LET old == s0.raw[sc]
@@ -180,10 +185,13 @@ LegalSc(s, sc, n) ==
   \/ s.raw[sc] = "READY" /\ n = "IDLE"
   \/ s.raw[sc] = "TF" /\ n = "IDLE"
 PInit == b = B0
-Update(L, h) == b' = DoUpdate(Clr(b), L, h) /\ ~b'.ovf
+\* v: variant of the BalancerAttributes / Metadata carried by the addresses of the update; they are not part of an
+\* address's identity (resolver.AddressMap, equalAddressIgnoringBalAttributes), so the policy must ignore them
+Update(L, h, v) == b' = DoUpdate(Clr(b), L, h) /\ ~b'.ovf
 ResolverError == b' = DoResolverError(Clr(b))
 ExitIdle == b' = DoExitIdle(Clr(b)) /\ ~b'.ovf
 Timer == b.timer /\ b' = DoTimer(Clr(b)) /\ ~b'.ovf
+StaleTimer == b.stale /\ b' = DoStale(Clr(b)) /\ ~b'.ovf
 ScState(sc, n) == sc \in 1..Len(b.addr) /\ LegalSc(b, sc, n) /\ b' = DoScState(Clr(b), sc, n) /\ ~b'.ovf
 Health(sc, n) == sc \in b.hreg /\ b.raw[sc] = "READY" /\ n \in {"READY", "TF", "CONNECTING"} /\ b' = DoHealth(Clr(b), sc, n)
 
